@@ -205,7 +205,14 @@ class C16(F.Spec):
             if rng.random() < .3:
                 ops.append("adv 60")
         ops += ["adv 200", "adv 35000", "adv 200"]
+        after = None
+        if rng.random() < .5:
+            # the next connection after the error (or after a clean stream): it starts from a clean receive state
+            t3 = PREFIX + b"/channels/%d/set/on" % rng.randint(0, 9)
+            after = (0, t3.hex(), b"1".hex())
+            ops += ["adv 6000", "connected", "seg " + (CONNACK + publish(t3, b"1", 0, 1)).hex(), "adv 200"]
         return F.Case("big%d-%d" % (i, len(big)), ops, {"tags": ["stream:big", "size:%d" % (len(big) // 100 * 100)], "kind": "big", "biglen": len(big), "noshrink": True,
+                                                       "after": after,
                                                        "pubs": [(q, tt.hex(), p.hex(), pid) for q, tt, p, pid in pubs]})
 
     def derive_model(self, case, raw):
@@ -346,6 +353,14 @@ class C16(F.Spec):
                 j += 1
         if case.meta.get("kind") == "big":
             got = []
+            second = [k for k, o in enumerate(case.ops) if o == "connected"][1:]
+            if second and case.meta.get("after"):
+                late = [(int(x.split()[2]), x.split()[4] if x.split()[4] != "-" else "", x.split()[5] if x.split()[5] != "-" else "")
+                        for g in raw[second[0]:] for x in g if x.startswith("PUB ")]
+                if late != [tuple(case.meta["after"])]:
+                    fs.append(F.Finding("publish-delivery", "on the connection after the reconnect the broker sent one PUBLISH, delivered: %s"
+                                        % [(q, t[-12:], p[:8]) for q, t, p in late][:3]))
+                raw = raw[:second[0]]
             for g in raw:
                 for x in g:
                     if x.startswith("PUB "):
